@@ -41,9 +41,9 @@ def execCb (cb : Callback) : Exec.Cb :=
     prio := match cb.kind with | .polled p => p | _ => 0,
     cost := cb.cost.ofJobs 1 }
 
-/-- the claim for rr phrased over the executor transition system itself (stated; `rr_safe` proves
-it over the schedule-level Spec; that runs of the transition system satisfy that Spec is
-checked by execution, not proved) -/
+/-- the claim for rr in terms of the completions reported by `Exec.run` (an earlier phrasing,
+kept for reference: `rr_safe_lts` proves the claim for every run, phrased over the job system
+`Exec.toSys` of the run, via the refinement `executor_runs_are_legal`) -/
 def RrSafe : Prop :=
   ∀ (s : Supply) (wl : List Callback) (limit : Nat) (sigma : List Bool) (rels : Nat → List Nat),
     s.WF → SelfConsistentRr s wl limit →
